@@ -57,6 +57,16 @@ def fidelity_case(rnd, base):
     with open(art, 'rb') as f: h._extract(f, daudit, dst)
     if hashDirectory(src) != hashDirectory(dst): return {'kind': 'pack-extract-changes-directory-hash'}
     if open(audit, 'rb').read() != open(daudit, 'rb').read(): return {'kind': 'audit-changed'}
+    # the same location is used again: an artifact WITHOUT audit trail must not inherit the trail of the previous download
+    raw = gzip.decompress(open(art, 'rb').read()); out_ = io.BytesIO()
+    with tarfile.open(fileobj=io.BytesIO(raw), mode='r:') as src_t:
+        with tarfile.open(fileobj=out_, mode='w', format=tarfile.PAX_FORMAT, pax_headers=dict(src_t.pax_headers)) as t2:
+            for m in src_t:
+                if m.name == 'meta/audit.json.gz': continue
+                t2.addfile(m, src_t.extractfile(m) if m.isreg() else None)
+    try: h._extract(io.BytesIO(gzip.compress(out_.getvalue())), daudit, dst)
+    except Exception: pass
+    if os.path.exists(daudit): return {'kind': 'artifact-without-audit-trail-accepted-with-the-trail-of-an-earlier-download'}
     # corruption: a truncated / bit-flipped artifact is accepted only if the extracted content still matches the
     # result hash recorded in its audit trail (the verification of builder._downloadPackage, emulated here)
     data = open(art, 'rb').read(); good = hashDirectory(src)
